@@ -44,7 +44,7 @@ CLAIMED = {
          "Decides that the pruning threshold of each decreasing-Common4Mer scan is, for every reference length, at most the number of 4-mers the q-gram lemma guarantees a qualifying reference shares with the query, that the scan stops only strictly below it, that ties are appended, and that the reference, 4-mer-table and taxon tables handed to the search are filled at one index and truncated alike. Exactness of Common4Mer, the LCA index and MatchDistanceIndex are not decided.",
          "DESIGN.md §4 C15"),
  "C10": ("frame-of-reference def-use rule at the LocatePattern call sites (FR) with clamp-before-slice check",
-         "Decides that offsets returned for a fragment are translated with the fragment's own low bound and that fragment bounds are clamped into the sequence. The bit-parallel C matcher is not analysed.",
+         "Decides that offsets returned for a fragment are translated with the fragment's own low bound and that fragment bounds are clamped into the sequence. The bit-parallel C matcher is read through clang's AST for structural clauses only (tables, sibling agreement, the shape of its initial condition and of its transition), never for its values.",
          "DESIGN.md §4 C10"),
  "C11": ("role typing of the two orientation blocks of _Pcr: pattern provenance, must-depend of bounds, annotation def-use (PR)",
          "Decides that each orientation pairs a primer with the complement of the other one, uses the first primer's length for the amplicon length, derives the bounds from its own matches and annotates role-correctly. Completeness of the hit enumeration and circular arithmetic of Subsequence are not decided.",
